@@ -56,9 +56,13 @@ META = {
         "`parent.insert(i, message)` + `node.parent.remove(node)` in that order (the insertion point is located through the still "
         "attached node), and the per-node work may live in a helper the loop calls on every iteration (its entry-to-exit paths are "
         "judged as the iterations). Message placement: a system_message is a body element, so it is put "
-        "beside the outermost TextElement around the raw node (climbing loop `while isinstance(a.parent, TextElement): a = a.parent`), "
+        "beside the outermost TextElement around the raw node (climbing loop `while isinstance(a.parent, <classes>): a = a.parent`; the "
+        "classes - name, tuple or `A | B` union - must contain TextElement and field: a message between a field's name and body breaks "
+        "the two-children shape that Sphinx' metadata collector and docutils' DocInfo rely on), "
         "added to the document, or replaces the node in place only under `not isinstance(node.parent, TextElement)`; an unguarded "
-        "in-place replacement puts the message into titles/paragraphs (document title, toc) and is a violation. "
+        "in-place replacement puts the message into titles/paragraphs (document title, toc) and is a violation. Whenever the raw node is "
+        "removed, a field_name it leaves empty is refilled: after the removal, `if isinstance(P, field_name) and not P.children: "
+        "P.append(...)` with P the parent captured before the removal and no further condition (DocInfo reads field[0][0]). "
         "R2: no function reachable from a registered transform / post-transform / Sphinx event handler, or from what the entry calls "
         "after the filter, constructs nodes.raw (directly, through an alias or a package subclass); every construction is in a "
         "render-phase function or unreachable. Reachability includes the renderer's dynamic dispatch wherever it is written. "
@@ -79,7 +83,9 @@ META = {
         "R6: every jinja2 environment constructed in code reachable from a front end's render (the substitution extension evaluates "
         "expressions written in the document) is SandboxedEnvironment/ImmutableSandboxedEnvironment or a package subclass that only restricts the sandbox (an override of "
         "is_safe_attribute/is_safe_callable must return False or conjoin/guard its result with super()'s verdict; getattr/getitem/call "
-        "overrides must delegate to super()); "
+        "overrides must delegate to super()); a template-context entry holding the live Sphinx environment (sphinx_env / "
+        "settings.env / its app) is dominated by truth tests of BOTH switches - the sandbox cannot police application objects, "
+        "which reach the file system and exec(); "
         "jinja2.Environment, NativeEnvironment or jinja2.Template there is a violation (expressions reach open() and the settings "
         "object through __globals__)."
     ),
@@ -840,11 +846,24 @@ class Filter:
                                     out.add(x.id)
         return out
 
-    def _is_text_element(self, e: ast.expr | None) -> bool:
+    def _class_set(self, e: ast.expr | None) -> set[str]:
+        """Resolved class names of an isinstance() class argument: a name, a tuple, or a `A | B` union."""
+        if e is None:
+            return set()
         if isinstance(e, ast.Tuple):
-            return any(self._is_text_element(x) for x in e.elts)
-        d = dotted(e) if e is not None else None
-        return bool(d) and self.fi.module.resolve(d) == "docutils.nodes.TextElement"
+            return set().union(*[self._class_set(x) for x in e.elts]) if e.elts else set()
+        if isinstance(e, ast.BinOp) and isinstance(e.op, ast.BitOr):
+            return self._class_set(e.left) | self._class_set(e.right)
+        e2 = _deref(e, self.fi) if isinstance(e, ast.Name) else e
+        if e2 is not e and isinstance(e2, (ast.Tuple, ast.BinOp)):
+            return self._class_set(e2)
+        d = dotted(e)
+        if d and d in self.fi.module.const_nodes and isinstance(self.fi.module.const_nodes[d], (ast.Tuple, ast.BinOp)):
+            return self._class_set(self.fi.module.const_nodes[d])
+        return {self.fi.module.resolve(d)} if d else set()
+
+    def _is_text_element(self, e: ast.expr | None) -> bool:
+        return "docutils.nodes.TextElement" in self._class_set(e)
 
     def _placement(self, call: ast.Call, kind: str, v: str, lp: ast.AST, cfg) -> None:
         """The message must end up beside, not inside, a text element (title, paragraph, ...): inline raw nodes
@@ -885,11 +904,72 @@ class Filter:
         ]
         starts = [n for n in walk_local(lp) if isinstance(n, ast.Assign) and len(n.targets) == 1 and unparse(n.targets[0]) == a and unparse(n.value) == v]
         if climbs and starts and cfg.dominates(climbs[0], st) and cfg.dominates(starts[0], climbs[0]):
-            self.oks.append(("message-placement", f"the message goes next to `{a}`, the outermost text element around the raw node (or the node itself)", call))
+            classes = self._class_set(climbs[0].test.args[1])
+            if "docutils.nodes.field" not in classes:
+                self.problems.append(("message-placement", f"the climb `{short(climbs[0].test, 70)}` stops at a field: for a raw node in a field name (`:author<br>: me`) the message is inserted between the field's name and body - a field has exactly these two children (Sphinx' metadata collector asserts it, docutils no longer recognises the bibliographic field)", climbs[0]))
+            else:
+                self.oks.append(("message-placement", f"the message goes next to `{a}`, outside the text element and the field around the raw node (or next to the node itself)", call))
         elif starts and not climbs:
             self.problems.append(("message-placement", f"`{short(call, 60)}` inserts the warning into `{a}.parent`, and `{a}` is the raw node itself: for inline raw nodes that is inside a title or paragraph, whose text then contains the system message", call))
         else:
             raise Unsupported(f"{fi.module.site(call)}: cannot tell which node `{a}` is when the message is inserted")
+
+    def _field_name_kept(self, reg: ast.AST, v: str, cfg) -> None:
+        """Removing the raw node can leave its parent without children; docutils' DocInfo transform reads
+        `field[0][0]`, so a field_name must not stay empty (`:<br>: value` as first body element): after the
+        removal a child is added to P - the parent captured before the removal - exactly under
+        `isinstance(P, field_name)` and `P` being empty (one test or nested tests, no further condition)."""
+        fi = self.fi
+        rm_stmts = [cfg.stmt_of(c) for c in self.removers]
+        first_rm = min(getattr(r_, "lineno", 0) for r_ in rm_stmts)
+        found = None
+        why = "no statement refills a field_name that the removal left empty"
+        for c_ in calls_in(reg, into_lambdas=False):
+            f_ = c_.func
+            if not (isinstance(f_, ast.Attribute) and f_.attr in ("append", "insert", "extend") and isinstance(f_.value, ast.Name)):
+                continue
+            px = f_.value
+            pname = px.id
+            st = cfg.stmt_of(c_)
+            gs = [(t, pol) for t, pol in cfg.guards(st) if getattr(reg, "lineno", 0) <= getattr(t, "lineno", 0) <= getattr(reg, "end_lineno", 10**9)]
+            inst = [(t, pol) for t, pol in gs if isinstance(t, ast.Call) and dotted(t.func) == "isinstance" and len(t.args) == 2 and "docutils.nodes.field_name" in self._class_set(t.args[1])]
+            if not inst:
+                continue
+            t, pol = inst[0]
+            if not pol:
+                why = f"`{short(t, 60)}` is negated: field names are excluded from the refill"
+                continue
+            if unparse(t.args[0]) != pname:
+                tested = unparse(t.args[0])
+                why = f"the type test looks at `{tested}`, the refill goes to `{pname}`" + (f" (after the removal `{v}.parent` is None, so the test never holds)" if tested == f"{v}.parent" else "")
+                continue
+            dv = _deref(px, fi)
+            cap = [a_ for a_ in walk_local(reg) if isinstance(a_, ast.Assign) and any(isinstance(tg, ast.Name) and tg.id == pname for tg in a_.targets)]
+            if not (dv is not None and unparse(dv) == f"{v}.parent" and cap and all(cfg.dominates(cfg.stmt_of(cap[0]), r_) for r_ in rm_stmts)):
+                why = f"`{pname}` is not the raw node's parent captured before the removal"
+                continue
+            empt = [
+                (t2, pol2) for t2, pol2 in gs
+                if (not pol2 and unparse(t2) in (f"{pname}.children", pname, f"len({pname})", f"len({pname}.children)"))
+                or (pol2 and isinstance(t2, ast.Compare) and len(t2.ops) == 1 and isinstance(t2.ops[0], ast.Eq) and unparse(t2.left) in (f"len({pname})", f"len({pname}.children)") and is_const(t2.comparators[0], 0))
+            ]
+            # conditions that were established before the removal (the filter's own guards) do not narrow the refill
+            extra = [x for x in gs if x not in inst and x not in empt and getattr(x[0], "lineno", 0) > first_rm]
+            if not empt:
+                why = f"the refill of `{pname}` is not conditioned on `{pname}` being empty"
+                continue
+            if extra:
+                why = f"the refill additionally depends on `{short(extra[0][0], 50)}`"
+                continue
+            if not all(cfg.dominates(r_, st) for r_ in rm_stmts) or getattr(inst[0][0], "lineno", 0) < first_rm:
+                why = f"`{short(t, 50)}` / the refill is evaluated before the node is removed (the name still has its child then)"
+                continue
+            found = c_
+            break
+        if found is not None:
+            self.oks.append(("field-name-kept-nonempty", "a field_name emptied by the removal gets a (blank) text child", found))
+        else:
+            self.problems.append(("field-name-kept-nonempty", f"{why}: with raw disabled, `:<br>: value` as the first body element leaves a field_name without children, and docutils' DocInfo transform (field[0][0]) raises IndexError, aborting the conversion", self.removers[0]))
 
     def _delegate(self, lp: ast.For, v: str, cfg) -> bool:
         """`for node in ...: helper(document, node)`: the loop body hands each raw node to a per-node helper.
@@ -996,6 +1076,8 @@ class Filter:
             muts = [m for m in muts if m[1] != "remove"] + inserts
         else:
             self.removers = [c for c, kind, _ in muts if kind == "remove"]
+        if self.removers:
+            self._field_name_kept(reg, v, cfg)
         stmts = removal_stmts
         if cfg.paths_avoiding(start, stop, lambda n: id(n) in stmts):
             # some iteration leaves the node in place.  Harmless only when the node is detached (`v.parent is None`)
@@ -2275,6 +2357,15 @@ def _sandbox_hooks_weakened(ci) -> tuple[FunctionInfo, str] | None:
     return None
 
 
+def _is_live_env(e: ast.expr | None, fi: FunctionInfo) -> bool:
+    """The expression denotes the running Sphinx BuildEnvironment (or its application)."""
+    e = _deref(e, fi)
+    if e is None:
+        return False
+    t = unparse(e)
+    return t.endswith(("sphinx_env", ".settings.env", ".env.app", "sphinx_env.app")) or t in ("env.app",)
+
+
 @rule("C20.R6")
 def r6_templates_sandboxed(corpus: Corpus, rep: Report, tier: str):
     rep.rule("C20.R6", "every template environment that evaluates expressions taken from the document (substitutions) is jinja2's SandboxedEnvironment: a plain Environment lets `{{ x.__globals__[...] }}` reach open() and the settings object")
@@ -2342,6 +2433,50 @@ def r6_templates_sandboxed(corpus: Corpus, rep: Report, tier: str):
                 )
             else:
                 raise Unsupported(f"{site}: unknown jinja2 environment class `{full}`")
+    # (b) the sandbox cannot police a live application object graph: the Sphinx environment may only be handed to
+    #     document-written expressions while both switches are on
+    n_env = 0
+    for fi in corpus.all_functions():
+        if fi.is_lambda or fi.fq not in reach:
+            continue
+        if not any((fi.module.resolve(dotted(c.func) or "") in safe | set(UNSAFE_TEMPLATE)) for c in _own_calls(fi)):
+            continue
+        cfg = get_cfg(fi)
+        for n_ in fi.local_nodes():
+            exposures: list[tuple[ast.AST, ast.expr]] = []
+            if isinstance(n_, ast.Assign) and len(n_.targets) == 1 and isinstance(n_.targets[0], ast.Subscript) and _is_live_env(n_.value, fi):
+                exposures.append((n_, n_.value))
+            elif isinstance(n_, ast.Dict):
+                for kk, vv in zip(n_.keys, n_.values):
+                    if vv is not None and _is_live_env(vv, fi):
+                        exposures.append((n_, vv))
+            elif isinstance(n_, ast.Call) and isinstance(n_.func, ast.Attribute) and n_.func.attr in ("render", "update", "setdefault"):
+                for kw in n_.keywords:
+                    if _is_live_env(kw.value, fi):
+                        exposures.append((n_, kw.value))
+            for node_, val_ in exposures:
+                n_env += 1
+                st = cfg.stmt_of(node_)
+                fs = []
+                for t_, pol_ in _guard_facts(cfg, st):
+                    t2_ = _deref(t_, fi) if isinstance(t_, ast.Name) else t_
+                    fs.extend(_facts(t2_, pol_) if t2_ is not t_ and t2_ is not None else [(t_, pol_)])
+                have = {sw for sw in SWITCHES if any(pol and _setting_root(t, sw, fi) is not None for t, pol in fs)}
+                k = f"{fi.fq}|live Sphinx environment `{short(val_, 30)}` given to document-written expressions"
+                if have == set(SWITCHES):
+                    rep.ok("C20.R6", k, fi.module.site(node_), "only while raw_enabled and file_insertion_enabled are both on")
+                else:
+                    missing = sorted(set(SWITCHES) - have)
+                    rep.violation(
+                        "C20.R6",
+                        k,
+                        fi.module.site(node_),
+                        f"`{short(node_, 60)}` hands the live Sphinx environment to the sandboxed expression without a dominating truth test of {' and '.join(missing)}: "
+                        "`{{ env.app.extensions[...].module.mocking.Path(f).read_text() }}` reads a file although file insertion is disabled, and the same object graph reaches exec(), "
+                        "which can switch raw_enabled back on - the sandbox cannot police application objects, so both switches must be on",
+                    )
+    if n_env == 0:
+        rep.listed("C20.R6", "live environment exposure", "myst_parser/mdit_to_docutils/base.py:0", "no template context entry holds the Sphinx environment")
     rep.expect_min("C20.R6", 1, "the substitution environment in render_substitution")
 
 
@@ -2365,7 +2500,7 @@ def _filter_parts(fi: FunctionInfo, flt: ast.If) -> dict:
     v = loop.target.id if loop is not None and isinstance(loop.target, ast.Name) else None
     wst = find_node(fi, lambda n: isinstance(n, ast.Assign) and inside(n) and isinstance(n.value, ast.Call) and isinstance(n.value.func, ast.Attribute) and n.value.func.attr == "warning" and unparse(n.value.func.value).endswith("reporter"))
     ins = find_node(fi, lambda n: isinstance(n, ast.Expr) and inside(n) and isinstance(n.value, ast.Call) and isinstance(n.value.func, ast.Attribute) and n.value.func.attr in ("insert", "append") and wst is not None and unparse(n.value.args[-1]) == unparse(wst.targets[0]))
-    rm = find_node(fi, lambda n: isinstance(n, ast.Expr) and inside(n) and isinstance(n.value, ast.Call) and v is not None and unparse(n.value.func) == f"{v}.parent.remove")
+    rm = find_node(fi, lambda n: isinstance(n, ast.Expr) and inside(n) and isinstance(n.value, ast.Call) and v is not None and isinstance(n.value.func, ast.Attribute) and n.value.func.attr == "remove" and len(n.value.args) == 1 and unparse(n.value.args[0]) == v)
     rep_ = find_node(fi, lambda n: isinstance(n, ast.Expr) and inside(n) and isinstance(n.value, ast.Call) and v is not None and unparse(n.value.func) in (f"{v}.parent.replace", f"{v}.replace_self"))
     climb = find_node(fi, lambda n: isinstance(n, ast.While) and inside(n) and "TextElement" in unparse(n.test))
     return {"loop": loop, "outer": outer, "v": v, "wst": wst, "ins": ins, "rm": rm, "replace": rep_, "climb": climb}
@@ -2384,6 +2519,14 @@ def mutants(corpus: Corpus):
         out.append(("c20-r1-*", "raw filter or render statement not found in Parser.parse"))
     else:
         ind = indent_of(parse, flt)
+        # the render call may sit in a try/finally: edits around it are made at the level of the filter
+        while parent(render_st) is not None and parent(render_st) is not parse.node and not (isinstance(parent(render_st), ast.stmt) and flt in getattr(parent(parent(render_st)) if False else parent(render_st), "body", [])):
+            nxt = parent(render_st)
+            if not isinstance(nxt, ast.stmt):
+                break
+            render_st = nxt
+            if indent_of(parse, render_st) == ind:
+                break
         # 1. filter switched off
         out.append(Mutant("c20-filter-dropped", "C20.R1", dm.rel, splice(dm.src, flt.test, "False"), expect="Parser.parse|raw filter after"))
         # 2. early return between render and filter
@@ -2475,6 +2618,26 @@ def mutants(corpus: Corpus):
                 srco = splice(dm.src, fp["rm"], segment(dm.src, fp["ins"]))
                 srco = splice(srco, fp["ins"], segment(dm.src, fp["rm"]))
                 out.append(Mutant("c20-filter-node-removed-before-message-inserted", "C20.R1", dm.rel, srco, expect="insert-before-remove"))
+            if fp["climb"] is not None and isinstance(fp["climb"].test, ast.Call) and len(fp["climb"].test.args) == 2:
+                cls_arg = fp["climb"].test.args[1]
+                # revert of 17952b8 (climb only out of text elements) and a partial weakening (field_list kept, field dropped)
+                out.append(Mutant("c20-filter-message-between-field-name-and-body", "C20.R1", dm.rel, splice(dm.src, cls_arg, "nodes.TextElement"), expect="message-placement"))
+                out.append(Mutant("c20-filter-climb-leaves-field-list-but-not-field", "C20.R1", dm.rel, splice(dm.src, cls_arg, "nodes.TextElement | nodes.field_list"), expect="message-placement"))
+            fn_if = find_node(parse, lambda n: isinstance(n, ast.If) and flt.lineno <= n.lineno <= flt.end_lineno and "field_name" in unparse(n.test))
+            if fn_if is not None and fp["rm"] is None:
+                fp["rm"] = find_node(parse, lambda n: isinstance(n, ast.Expr) and isinstance(n.value, ast.Call) and isinstance(n.value.func, ast.Attribute) and n.value.func.attr == "remove" and flt.lineno <= n.lineno <= flt.end_lineno)
+            if fn_if is not None:
+                # revert of 7f8dc63 and partial weakenings of the refill obligation
+                out.append(Mutant("c20-filter-empty-field-name-left", "C20.R1", dm.rel, splice(dm.src, fn_if, "pass"), expect="field-name-kept-nonempty"))
+                inst_ = find_node(parse, lambda n: isinstance(n, ast.Call) and dotted(n.func) == "isinstance" and fn_if.lineno <= n.lineno <= fn_if.end_lineno and "field_name" in unparse(n))
+                if inst_ is not None and vn_ is not None:
+                    out.append(Mutant("c20-filter-field-name-test-on-detached-node", "C20.R1", dm.rel, splice(dm.src, inst_.args[0], f"{vn_}.parent"), expect="field-name-kept-nonempty"))
+                    out.append(Mutant("c20-filter-field-name-refill-only-for-docinfo-names", "C20.R1", dm.rel, splice(dm.src, fn_if.test, segment(dm.src, fn_if.test) + " and isinstance(parent.parent.parent.parent, nodes.document)"), expect="field-name-kept-nonempty"))
+                rm_ = find_node(parse, lambda n: isinstance(n, ast.Expr) and isinstance(n.value, ast.Call) and isinstance(n.value.func, ast.Attribute) and n.value.func.attr == "remove" and flt.lineno <= n.lineno <= flt.end_lineno)
+                if rm_ is not None and rm_.lineno < fn_if.lineno:
+                    srcq = splice(dm.src, fn_if, segment(dm.src, rm_))
+                    srcq = splice(srcq, rm_, segment(dm.src, fn_if))
+                    out.append(Mutant("c20-filter-field-name-checked-before-removal", "C20.R1", dm.rel, srcq, expect="field-name-kept-nonempty"))
             if fp["climb"] is not None:
                 out.append(Mutant("c20-filter-message-beside-node-without-climbing", "C20.R1", dm.rel, splice(dm.src, fp["climb"], "pass"), expect="message-placement"))
             # revert of d017ced: only the tree is swept, not the registered footnotes
@@ -2632,6 +2795,23 @@ def mutants(corpus: Corpus):
             out.append(Mutant(mid, "C20.R6", base.rel, splice(base.src, envc.func, "_SubstitutionEnvironment") + txt, expect="sandbox hook replaced"))
     else:
         out.append(("c20-substitution-environment-not-sandboxed", "no SandboxedEnvironment(...) in render_substitution"))
+    # R6: revert / partial weakenings of a0ca114 - the live Sphinx environment handed to document-written expressions
+    env_if = find_node(rsub, lambda n: isinstance(n, ast.If) and any(isinstance(x, ast.Assign) and isinstance(x.targets[0], ast.Subscript) and "sphinx_env" in unparse(x.value) for x in n.body))
+    if env_if is not None:
+        leaves_ = env_if.test.values if isinstance(env_if.test, ast.BoolOp) and isinstance(env_if.test.op, ast.And) else [env_if.test]
+        plain_ = [x for x in leaves_ if not _mentions_setting(x, "raw_enabled", rsub) and not _mentions_setting(x, "file_insertion_enabled", rsub)]
+        raw_ = [x for x in leaves_ if _mentions_setting(x, "raw_enabled", rsub)]
+        fil_ = [x for x in leaves_ if _mentions_setting(x, "file_insertion_enabled", rsub)]
+        if plain_ and raw_ and fil_:
+            j = lambda xs: " and ".join(segment(base.src, x) for x in xs)  # noqa: E731
+            out.append(Mutant("c20-substitution-env-always-exposed", "C20.R6", base.rel, splice(base.src, env_if.test, j(plain_)), expect="live Sphinx environment"))
+            out.append(Mutant("c20-substitution-env-exposed-when-only-raw-disabled", "C20.R6", base.rel, splice(base.src, env_if.test, j(plain_ + fil_)), expect="live Sphinx environment"))
+            out.append(Mutant("c20-substitution-env-exposed-when-only-file-insertion-disabled", "C20.R6", base.rel, splice(base.src, env_if.test, j(plain_ + raw_)), expect="live Sphinx environment"))
+            out.append(Mutant("c20-substitution-env-exposed-unless-both-disabled", "C20.R6", base.rel, splice(base.src, env_if.test, j(plain_) + " and (" + " or ".join(segment(base.src, x) for x in fil_ + raw_) + ")"), expect="live Sphinx environment"))
+        else:
+            out.append(("c20-substitution-env-*", "guard of the env exposure not in the expected conjunctive form"))
+    else:
+        out.append(("c20-substitution-env-*", "no guarded `variable_context[...] = self.sphinx_env` in render_substitution"))
     # R4
     rr = base.func("DocutilsRenderer.render_restructuredtext")
     st = find_stmt(rr, lambda s: isinstance(s, ast.Assign) and unparse(s.targets[0]).endswith(".settings"))
